@@ -14,6 +14,7 @@ import (
 	"sort"
 	"strconv"
 	"strings"
+	"time"
 
 	"github.com/DavidGamba/go-getoptions"
 	"github.com/DavidGamba/go-getoptions/verifrt"
@@ -83,6 +84,7 @@ type CmdDef struct {
 	RequireOrder bool        `json:"require_order,omitempty"` // SetRequireOrder() called on this command (inherited by its sub-commands)
 	ArgCompl     []string    `json:"argcompl,omitempty"`
 	ArgFn        bool        `json:"argfn,omitempty"`
+	ArgFnSlow    bool        `json:"argfn_slow,omitempty"` // a further dynamic completion function that takes 1.5 s to answer (a network lookup)
 	SynArgs      [][2]string `json:"synargs,omitempty"`
 }
 
@@ -397,6 +399,13 @@ func (p *Prog) build(l *level) {
 		}, func(target string, prev []string, partial string) []string {
 			p.Fns++
 			return []string{"dyn-" + d.Name + "-2"}
+		})
+	}
+	if d.ArgFnSlow {
+		opt.ArgCompletionsFns(func(target string, prev []string, partial string) []string {
+			p.Fns++
+			time.Sleep(1500 * time.Millisecond)
+			return []string{"slow-" + d.Name + "-1"}
 		})
 	}
 	for _, a := range d.SynArgs {
